@@ -48,6 +48,9 @@ def run(chk, orch):
             opts.update(check_canonical=True, annotated=True, report_canonical=chk.rng.choice([None, "auto", "only_canonical", "only_stranded", "all"]))
             # reads (and novel models) with an exon outside the annotated span of their gene
             spec["outside_exon"] = chk.rng.choice([1, 2])
+            if k % 2 == 0:
+                # two such genes, each with one further read that sticks out of the annotated span on the other side (less far)
+                spec["outside_exon"] = 2
             spec["softmask"] = 1 if k % 4 in (2, 3) else 0      # soft-masked (lower-case) stretches of the reference
             if k % 2 == 1:
                 # unannotated loci with non-canonical introns and polyA / polyT reads: the strand of their models rests on the
